@@ -47,6 +47,8 @@ def cases(tier, seed):
         out.append((sc, dict(c, delay={"mode": "choice", "arity": 3})))
     out += common.add_algs(common.park_scope(lvl), common.park_algs)
     out += common.add_algs(common.park2_scope(lvl), common.park_algs)
+    out += common.add_algs(common.offgrid_dense_scope(lvl),
+                           lambda c: [{"kind": "queue"}])
     return common.rotate(out, seed)
 
 
